@@ -125,5 +125,26 @@ func Die() {
 	panic(Crash{s, p})
 }
 
+// XDev is an environment answer: a rename whose two names lie in different directories fails with
+// EXDEV, as if each folder were a mount point of its own.
+var XDev bool
+
+// ExitMsg is the message of the last Exit (diagnostics).
+var ExitMsg string
+
+// Exit ends the simulated process (log.Fatal, os.Exit): nothing more is performed, deferred functions
+// included. Under a real kill plan the process really exits.
+func Exit(code int, msg string) {
+	mu.Lock()
+	s, p := crashAt, prefix
+	dead = true
+	ExitMsg = msg
+	mu.Unlock()
+	if SigKill {
+		os.Exit(code)
+	}
+	panic(Crash{s, p})
+}
+
 func Track(f *os.File)   { mu.Lock(); open[f] = true; mu.Unlock() }
 func Untrack(f *os.File) { mu.Lock(); delete(open, f); mu.Unlock() }
